@@ -170,17 +170,20 @@ def ab_body(case):
 
 # ------------------------------------------------------------------ filter_thru
 BANDS = [(2980, 4130), (3630, 5830), (5380, 7230), (6430, 8630), (7730, 11230)]
+HAIR = {'hair-r': (4800.0, 5380.05), 'hair-g': (5829.9, 7000.0), 'hair-u': (2980.0, 2982.0)}
 
 
 @st.composite
 def filt_case(draw):
     ntr = draw(st.sampled_from([2, 1, 3, 4]))
     nx = draw(st.integers(200, 600))
-    cover = draw(st.sampled_from(['all', 'blue', 'red', 'none', 'middle']))
-    lo, hi = dict(all=(2800.0, 11500.0), blue=(3000.0, 5000.0), red=(6000.0, 10500.0), none=(12000.0, 15000.0), middle=(4500.0, 7000.0))[cover]
+    cover = draw(st.sampled_from(['all', 'blue', 'red', 'none', 'middle', 'hair-r', 'hair-g', 'hair-u']))
+    # hair-*: the spectrum touches a band by a fraction of an Angstrom (its last / first pixel is just inside the band edge)
     covers = dict(all=(2800.0, 11500.0), blue=(3000.0, 5000.0), red=(6000.0, 10500.0), none=(12000.0, 15000.0), middle=(4500.0, 7000.0))
+    covers.update(HAIR)
+    lo, hi = covers[cover]
     # traces of one image may cover different bands (e.g. blue and red arms); first trace uses `cover`
-    per_trace = [cover] + [draw(st.sampled_from([cover, cover, 'all', 'red', 'blue', 'none'])) for _ in range(ntr - 1)]
+    per_trace = [cover] + [draw(st.sampled_from([cover, cover, 'all', 'red', 'blue', 'none', 'hair-r', 'hair-g'])) for _ in range(ntr - 1)]
     return dict(ntr=ntr, nx=nx, cover=cover, lo=lo, hi=hi, ranges=[list(covers[c]) for c in per_trace], direction=draw(st.sampled_from(['increasing', 'decreasing'])),
                 fam=draw(st.sampled_from(['random', 'linear', 'const'])), seed=draw(st.integers(0, 10 ** 6)), c=draw(st.sampled_from([3.0, -2.5, 1e3, 0.0])),
                 mask=draw(st.sampled_from([None, 'runs', 'runs'])), runs=[[draw(st.integers(0, ntr - 1)), draw(st.integers(1, nx - 30)), draw(st.integers(1, 25))] for _ in range(3)],
@@ -194,8 +197,9 @@ def filt_body(case):
     k = np.arange(nx, dtype='f8')
     rows = []
     for t in range(ntr):
-        l0 = math.log10(case['ranges'][t][0]) + 0.002 * case['shift'][t]
-        l1 = math.log10(case['ranges'][t][1]) + 0.002 * case['shift'][t]
+        jit = 0.0 if tuple(case['ranges'][t]) in HAIR.values() else 0.002 * case['shift'][t]
+        l0 = math.log10(case['ranges'][t][0]) + jit
+        l1 = math.log10(case['ranges'][t][1]) + jit
         ll = l0 + (l1 - l0) * k / (nx - 1)
         rows.append(ll if case['direction'] == 'increasing' else ll[::-1].copy())
     logwave = np.array(rows)
@@ -245,6 +249,11 @@ def filt_body(case):
         check(bool(np.all(np.abs(rc[over] - c) <= 1e-9 * max(1.0, abs(c)))), 'filter:constant-spectrum-not-preserved',
               lambda: dict(c=c, got=rc.tolist(), overlapped=over.tolist(), direction=case['direction'], cover=case['cover']))
         check(bool(np.all(rc[clear] == 0)), 'filter:non-overlapped-band-not-zero', lambda: dict(got=rc.tolist(), clear=clear.tolist()))
+        # whatever the amount of overlap (a hair is enough), the weighted mean of a constant is that constant, and without overlap it is 0
+        either = (rc == 0) | (np.abs(rc - c) <= 1e-9 * max(1.0, abs(c)))
+        check(bool(np.all(either)), 'filter:constant-spectrum-gives-neither-c-nor-0', lambda: dict(c=c, got=rc.tolist(), cover=case['cover'], ranges=case['ranges']))
+        if c != 0 and bool(np.any((rc != 0) & ~over)):
+            note_label('band-touched-by-a-hair')
         for fl, r in ((f1, r1), (f2, r2)):
             good = fl if mask is None else np.where(mask != 0, np.nan, fl)
             mn, mx = np.nanmin(good, axis=1), np.nanmax(good, axis=1)
